@@ -289,6 +289,12 @@ type cacheValue struct {
 //
 // A and AAAA RRs are looked up with just the hostname as QNAME.
 func (r *Resolver) Resolve(ctx context.Context, name string) (ResolveResult, error) {
+	return r.resolve(ctx, name, nil)
+}
+
+// resolve is Resolve. When aliased is not nil, it is set to true when the name
+// has an AliasMode HTTPS record that was followed.
+func (r *Resolver) resolve(ctx context.Context, name string, aliased *bool) (ResolveResult, error) {
 	result := ResolveResult{
 		Port: 443,
 	}
@@ -399,6 +405,9 @@ func (r *Resolver) Resolve(ctx context.Context, name string) (ResolveResult, err
 				// Follow aliases. RFC 9460 2.4.2
 				want = v.Target
 				result.HTTPS = nil
+				if aliased != nil {
+					*aliased = true
+				}
 				continue
 			}
 		}
